@@ -14,6 +14,7 @@ package main
 import (
 	"fmt"
 	"strings"
+	"sync/atomic"
 	"time"
 
 	"github.com/gopacket/gopacket"
@@ -137,6 +138,141 @@ func (c *c15) run() {
 	nl := e.N(40, 600)
 	for l := 0; l < nl; l++ {
 		c.loop(l)
+	}
+	ns := e.N(16, 200)
+	for k := 0; k < ns; k++ {
+		c.silence(k)
+	}
+}
+
+// silence: the peer announces a small Detect Mult, the local one is large; the session comes up and
+// the peer goes silent. RFC 5880 6.8.4: the link is down after remote mult x max(local RequiredMinRx,
+// remote DesiredMinTx). Timers are the runtime's: a reference timer of exactly that duration is started
+// when the last message is released, and only "packets still forwarded 9 more detection times after the
+// reference timer fired" counts as a violation.
+func (c *c15) silence(idx int) {
+	r, e := c.r, c.e
+	ids := []uint16{ifP, ifC, ifK, ifPE, ifSC, ifSK}
+	id := ids[r.Intn(len(ids))]
+	rm := r.Range(1, 3)
+	local := r.Range(15*rm+5, 60)
+	if local > 255 {
+		local = 255
+	}
+	rx := time.Duration(r.Range(5, 12)) * time.Millisecond
+	a := stdAS(r, map[uint16]bool{id: true})
+	tw := stdAS(vlib.NewRand(1), nil)
+	tw.key, tw.reuse = a.key, a.reuse
+	if err := a.build(uint8(local), 50*time.Minute, rx); err != nil {
+		panic(err)
+	}
+	if err := tw.build(3, 0, 0); err != nil {
+		panic(err)
+	}
+	defer a.dp.Close()
+	a.dp.StartBFD()
+	vs := a.dp.Session(id)
+	dt := time.Duration(rm) * rx // the peer's DesiredMinTx equals our RequiredMinRx
+	msg := func(state int) []byte {
+		m := bfdMsg(state, false)
+		m.DetectMultiplier = layers.BFDDetectMultiplier(rm)
+		m.DesiredMinTxInterval = layers.BFDTimeInterval(rx / time.Microsecond)
+		m.RequiredMinRxInterval = m.DesiredMinTxInterval
+		return a.bfdPacket(id, m)
+	}
+	rep := map[string]any{"case": idx, "config": a.modelCfg(), "interface": id, "local_detect_mult": local, "remote_detect_mult": rm,
+		"interval_ms": rx.Milliseconds(), "negotiated_detection_time_ms": dt.Milliseconds()}
+	step := func(state int) bool {
+		_, p, hung := a.dp.Deliver(msg(state), id, true, 3*time.Second)
+		return p && !hung
+	}
+	if !step(1) {
+		e.Extra["silence-setup"] = "first message not accepted"
+		return
+	}
+	vs.Release()
+	if !step(2) { // parks only after the first message has been applied: the session is in Init
+		e.Extra["silence-setup"] = "second message not accepted"
+		return
+	}
+	// a packet that would use the link
+	var sc scenario
+	var raw []byte
+	for try := 0; try < 200; try++ {
+		s2, hops := randScenario(a, r, []int{0, 1, 3, 4}[r.Intn(4)], -1)
+		if a.linkKey(s2.egress) != a.linkKey(id) {
+			continue
+		}
+		b := a.buildPath(r, s2, hops, nowSec()-uint32(r.Range(1, 100)))
+		pr := b.packet(r, nil, randHost(r), nil, 0, r.Bytes(8))
+		if t := tw.dp.Process(pr, s2.via); t.Disp == router.VerifR2Forward && t.Egress == s2.egress {
+			sc, raw = s2, pr
+			break
+		}
+	}
+	if raw == nil {
+		e.Extra["silence-setup"] = "no packet for the link"
+		return
+	}
+	var refFired atomic.Int64
+	start := time.Now()
+	ref := time.AfterFunc(dt, func() { refFired.Store(time.Now().UnixNano()) })
+	defer ref.Stop()
+	vs.Release() // Init + Init -> Up; from now on the peer is silent
+	sawUp, forwardedWhileUp := false, false
+	outcome := "gave-up"
+	var downAfter time.Duration
+	for time.Since(start) < 10*dt+5*time.Second {
+		st := vs.State()
+		if st == layers.BFDStateUp && !sawUp {
+			sawUp = true
+			if res := a.dp.Process(raw, sc.via); res.Disp == router.VerifR2Forward {
+				forwardedWhileUp = true
+			}
+		}
+		if sawUp && st != layers.BFDStateUp {
+			outcome, downAfter = "down", time.Since(start)
+			break
+		}
+		if f := refFired.Load(); sawUp && f != 0 && time.Now().UnixNano()-f >= int64(9*dt) {
+			if res := a.dp.Process(raw, sc.via); res.Disp == router.VerifR2Forward && vs.State() == layers.BFDStateUp {
+				outcome = "still-forwarding"
+				rep["elapsed_ms"] = time.Since(start).Milliseconds()
+				rep["reference_timer_fired_ms_ago"] = (time.Now().UnixNano() - f) / 1e6
+				rep["raw"], rep["via"], rep["egress"] = vlib.Hex(raw), sc.via, sc.egress
+				e.Violate("C15/forwarding-after-detection-time",
+					fmt.Sprintf("the peer has been silent for %d ms (negotiated detection time %d ms: remote mult %d x %d ms; local mult %d) and packets are still forwarded over the link",
+						time.Since(start).Milliseconds(), dt.Milliseconds(), rm, rx.Milliseconds(), local), rep)
+				break
+			}
+		}
+		time.Sleep(200 * time.Microsecond)
+	}
+	e.Case(fmt.Sprintf("silence:%d:%d:%d:%d:%d", idx, id, local, rm, rx.Milliseconds()), "silence/"+outcome, false)
+	if !sawUp {
+		e.Extra["silence-setup"] = "session did not come up"
+		return
+	}
+	if !forwardedWhileUp {
+		e.Violate("C15/not-forwarded-over-usable-link", "packet not forwarded while the session was Up", rep)
+	}
+	if outcome == "down" {
+		rep["down_after_ms"] = downAfter.Milliseconds()
+		res := a.dp.Process(raw, sc.via)
+		if res.Disp == router.VerifR2Forward {
+			e.Violate("C15/forwarded-over-down-link", "packet forwarded after the detection time expired", rep)
+		} else if res.Disp == router.VerifR2Slow {
+			if out, err := a.dp.SlowPath(res); err == nil {
+				want := fmt.Sprintf("scmp 5 %d %d", uint64(a.ia), sc.egress)
+				if i := a.ifByID(sc.egress); i != nil && i.sibling {
+					want = fmt.Sprintf("scmp 6 %d %d %d", uint64(a.ia), a.ingressOf(sc.via), sc.egress)
+				}
+				if got := describeSCMP(out); got != want {
+					rep["want"], rep["impl"] = want, got
+					e.Violate("C15/wrong-answer-for-down-link", "packet for a link that timed out not answered with the right SCMP message", rep)
+				}
+			}
+		}
 	}
 }
 
